@@ -540,7 +540,7 @@ impl<'i> BorrowedReadXml<'i> for TermFrom<'i> {
                     if tag.local_name().as_ref() == b"family" && family.is_none() =>
                 {
                     tracing::trace!(?tag);
-                    family = Some(reader.read_text(tag.to_end().name())?);
+                    family = Some(trimmed(reader.read_text(tag.to_end().name())?));
                 }
                 (ResolveResult::Bound(XNM), Event::Start(tag))
                     if tag.local_name().as_ref() == b"route-filter" =>
@@ -564,6 +564,14 @@ impl<'i> BorrowedReadXml<'i> for TermFrom<'i> {
             })?,
             route_filters,
         })
+    }
+}
+
+/// Strip the insignificant whitespace around an enumeration-valued leaf.
+fn trimmed(text: Cow<'_, str>) -> Cow<'_, str> {
+    match text {
+        Cow::Borrowed(text) => Cow::Borrowed(text.trim()),
+        Cow::Owned(text) => Cow::Owned(text.trim().to_owned()),
     }
 }
 
@@ -594,7 +602,7 @@ impl<'i> BorrowedReadXml<'i> for RouteFilter<'i> {
                 {
                     tracing::trace!(?tag);
                     let ident = reader.read_text(tag.to_end().name())?;
-                    if ident.as_ref() != "prefix-length-range" {
+                    if ident.trim() != "prefix-length-range" {
                         return Err(ReadError::Other(
                             anyhow!("unexpected 'choice-ident' value '{ident}'").into(),
                         ));
